@@ -91,4 +91,19 @@ PROPS = {
         explanation="Soundness/least-match theorems are stated about the executable model of the iterator (see props/C17.v for what is proved and what is only checked by the run); figures describe the differential run.",
         trusted_base=TB_COMMON + ["hook H1 (cargo feature astrolabe_verif): thread-local clock pin read by CronSchedule::next"], assumptions=ASSUME_COMMON + ["the wall clock is a parameter of the model; the pinned clock replaces DateTime::now() inside next()"],
     ),
+    "C18": dict(
+        cases_mod="CasesTz", check_fn="check_C18", shard=40,
+        extra_inputs_cmd=["python3", "lib/tz_oracle.py", "{tier}", "{seed}"],
+        rule="(i) real zone files: the vendored set under corpus/tz plus a seed-chosen sample of /usr/share/zoneinfo (thorough: all ~1200 non-leap-second files); timestamps = each of the last 14 and first 2 transitions -1/0/+1 s, the second-exact switch-overs of the footer rule (found by bisection on CPython's zoneinfo) -1/0/+1 s in several years up to 2499, and random instants; expected offsets from CPython's zoneinfo. (ii) synthesized v1/v2/v3 files from an AST (0-40 sorted transitions incl. gaps of 1-2 s, 1-6 types, footer none/fixed/alternating with Jn, n, Mm.w.d dates in both hemispheres, times incl. negative/over-24h for v3, quoted designations, arbitrary skipped sections); timestamps at transitions and rule switch-overs +-1 s (years 1900-2500) and random; expected offsets from TzSpec.spec_lookup on the AST. Non-trivial: every case.",
+        explanation="Theorems of props/C18.v are about the parsed structure (see the file header for the proved part); the byte-level parser is tied by the run.",
+        trusted_base=TB_COMMON + ["hook H2 (cargo feature astrolabe_verif): tzif_offsets(bytes, timestamps)", "CPython 3 zoneinfo as the reference evaluator on real zone files"],
+        assumptions=ASSUME_COMMON + ["/etc/localtime and the wall clock are parameters; Offset::Local is exercised separately"],
+    ),
+    "C19": dict(
+        cases_mod="CasesTz", check_fn="check_C19", shard=60,
+        rule="structure-aware mutations of valid synthesized files: every header count field x {0, 1, +1, -1, 2^31, 2^32-1, 255, 256} in either header, truncation at a random point, transition type index values {0,1,5,6,7,127,128,255}, version byte sweep, random byte flips, single-edit footer mutations over a POSIX-TZ alphabet, plus 48 hand-written hostile footers (month 0/13, week 0/6, day 7, J0, J366, 366, 365 in common years, 20-digit numbers, missing parts, over-range times, invalid UTF-8) on skeletons with and without transitions; lookups at 16 timestamps incl. both ends of the DateTime range. Outcome class (error / offsets / panic) compared with the model. Non-trivial: every case.",
+        explanation="Theorems of props/C19.v: no panic in the parser for any byte string, no panic in lookups on any accepted file (see file header).",
+        trusted_base=TB_COMMON + ["hook H2 (cargo feature astrolabe_verif): tzif_offsets(bytes, timestamps)"],
+        assumptions=ASSUME_COMMON + ["usize is 64 bits (length products cannot overflow)", "the Offset::Local -> /etc/localtime glue is modelled as resolve_local (file result, clock) and exercised in a mount namespace by the thorough tier"],
+    ),
 }
